@@ -161,6 +161,10 @@ func runPureCase(c *Chain, r *rand.Rand, pc PCase) (ev *Event) {
 			pB = pB.Mul(math.LegacyMustNewDecFromStr("1.5"))
 		case "-50%":
 			pB = pB.Mul(math.LegacyMustNewDecFromStr("0.5"))
+		case "x9": // far beyond the weight-distance threshold
+			pB = pB.MulInt64(9)
+		case "/9":
+			pB = pB.QuoInt64(9)
 		}
 		if !pB.IsPositive() {
 			return nil
